@@ -8,6 +8,8 @@ defect breaks.
 -/
 import Nitime.Model.C17
 import Nitime.Lemmas.C17
+import Nitime.Generated.C17Ops
+import Nitime.Lemmas.C17Rate
 
 namespace Nitime.C17.Props
 open Nitime Nitime.C17 Nitime.C17.Lemmas
@@ -398,20 +400,22 @@ theorem step_ok (s : State) (h : Inv s) (op : Op) : StepOK s op (step fixed s op
         conv_lhs => rw [hsam]
         simp only [affine_length]
         exact sliceSamples_affine _ _ _ _ _ _ hrange
-      have hI := inv_setSampling h _ s.cur.unit s.cur.rate _ _ hs s.kept (fun a ha => Or.inr ha)
+      have hI := inv_setSampling h _ s.cur.unit s.cur.rate _ _ hs (s.cur :: s.kept)
+        (fun a ha => by rcases List.mem_cons.mp ha with rfl | hm; exact Or.inl rfl; exact Or.inr hm)
       have hspec := setSampling_spec s.store
         (sliceSamples s.cur.samples (sliceIndices s.cur.samples.length a b c).1 c (sliceIndices s.cur.samples.length a b c).2.2) s.cur.unit s.cur.rate
         (sget s.store s.cur.t0 + (sliceIndices s.cur.samples.length a b c).1 * sget s.store s.cur.dt) (sget s.store s.cur.dt * c)
       have : step fixed s (.slice a b c) =
-          ({ s with store := (setSampling s.store
+          ({ store := (setSampling s.store
                 (sliceSamples s.cur.samples (sliceIndices s.cur.samples.length a b c).1 c (sliceIndices s.cur.samples.length a b c).2.2) s.cur.unit s.cur.rate
                 (sget s.store s.cur.t0 + (sliceIndices s.cur.samples.length a b c).1 * sget s.store s.cur.dt) (sget s.store s.cur.dt * c)).1,
                     cur := (setSampling s.store
                 (sliceSamples s.cur.samples (sliceIndices s.cur.samples.length a b c).1 c (sliceIndices s.cur.samples.length a b c).2.2) s.cur.unit s.cur.rate
-                (sget s.store s.cur.t0 + (sliceIndices s.cur.samples.length a b c).1 * sget s.store s.cur.dt) (sget s.store s.cur.dt * c)).2 }, none) := by
+                (sget s.store s.cur.t0 + (sliceIndices s.cur.samples.length a b c).1 * sget s.store s.cur.dt) (sget s.store s.cur.dt * c)).2,
+             kept := s.cur :: s.kept }, none) := by
         simp only [step, fixed, Bool.false_eq_true, if_false, hc]
       rw [this]
-      refine ⟨hI, ?_, fun hne => absurd rfl hne, ⟨⟨_, hspec.1⟩, fun a ha => ha⟩⟩
+      refine ⟨hI, ?_, fun hne => absurd rfl hne, ⟨⟨_, hspec.1⟩, fun a ha => List.mem_cons_of_mem _ ha⟩⟩
       simp only [absStep, hc, if_false]
       apply abs_ext
       · exact hspec.2.2.2.1
@@ -639,6 +643,12 @@ theorem originals_untouched {s : State} (h : Inv s) (op : Op) (a : Axis) (ha : a
   obtain ⟨h0, h1, h2, _⟩ := h.2 a ha
   refine ⟨hk a ha, ?_, ?_, ?_⟩ <;> rw [hl] <;> apply sget_append <;> assumption
 
+/-- a slice owns its samples: its parent stays in the state, so `originals_untouched` applies to it
+(no operation on the slice can change the parent's attribute objects; its samples are held by value) -/
+theorem slice_keeps_parent (s : State) (a b : Option Int) (c : Int) (hc : c ≠ 0) :
+    (step fixed s (.slice a b c)).1.kept = s.cur :: s.kept := by
+  simp only [step, fixed, Bool.false_eq_true, if_false, hc]
+
 /-- a copy owns its attribute objects: none of its ids is an id of the original, and the original
 is kept unchanged (`copy_shares_nothing_mutable`, axis part) -/
 theorem copy_fresh_objects {s : State} (h : Inv s) :
@@ -729,6 +739,16 @@ theorem lookup_after_ops (ops : List Op) {s : State} (h : Inv s) (h0 : sget s.st
       = .ok (i : Int) :=
   lookup_of_inv (run_inv ops h) (run_interval_nonzero ops h h0) i hi
 
+/-- **the sampling rate describes the samples numerically**: after ANY history from an axis with
+Δ ≠ 0 the `sampling_rate` attribute is within 6·2⁻⁵³ relative (3 ulp: five binary64 roundings of
+the source's formula) of the exact 10¹²/Δ Hz -/
+theorem run_rate_within_3ulp (ops : List Op) {s : State} (h : Inv s) (h0 : sget s.store s.cur.dt ≠ 0) :
+    |(run fixed ops s).cur.rate - 1000000000000 / ((sget (run fixed ops s).store (run fixed ops s).cur.dt : Int) : Rat)|
+      ≤ |1000000000000 / ((sget (run fixed ops s).store (run fixed ops s).cur.dt : Int) : Rat)| * (6 * Rate.eps) := by
+  obtain ⟨u, hu⟩ := run_rate_describes ops h h0
+  rw [hu]
+  exact Rate.rateOf_near u _ (run_interval_nonzero ops h h0)
+
 /-- a ramp whose step cancels the interval is refused and nothing changes -/
 theorem collapse_rejected (s : State) (r : Ramp) (d : Int)
     (hr : rampStep (convRamp s.cur.unit s.cur.samples r) = .ok d)
@@ -752,6 +772,22 @@ theorem collapse_rejected (s : State) (r : Ramp) (d : Int)
         constructor <;> omega
       simp only [step, hv, rampDispatch, rampOp, hr, shiftOp, fixed, Bool.false_eq_true, if_false, hb, if_true, hc,
         Bool.false_and]
+
+/-! ### static tie: the op table of the model is the one the source states (translator artefact
+`Generated/C17Ops.lean`, regenerated from nitime/timeseries.py on every run) -/
+open Nitime.Generated.C17Ops in
+/-- each conjunct pins one branch of `step fixed` / `indexAt fixed` to the text of the source:
+`inheritAttrs` (attribute list, copied objects), `.setitem` (always refused), `.mul` (k = 0 refused
+first), `.div` (the three refusal conditions), `shiftOp`/`rampOp` (convert+check → refuse collapse →
+read the shift → numpy's operation → `_set_sampling`, for `+=` and `-=`), `rampDispatch` (one
+element = shift), `indexAt` (both orientations).  A source edit that changes any of them makes this
+theorem fail on the next run.  (`sliceCopies` joins the list once repair C17-13 is in the source.) -/
+theorem static_op_table :
+    finalizeAttrs = ["t0", "sampling_rate", "sampling_interval", "duration"] ∧ finalizeCopies = true ∧
+    setitemAlwaysRaises = true ∧ imulRefusesZero = true ∧
+    idivGuards = ["val == 0", "int(self.t0) % val", "int(self.sampling_interval) % val"] ∧
+    iaddOrder = ["_convert_and_check_uniformity", "_refuse_collapse", "read-shift", "numpy-op", "_set_sampling"] ∧
+    isubOrder = iaddOrder ∧ oneElementIsShift = true ∧ lookupBothOrientations = true := by decide
 
 /-! ### non-vacuity -/
 /-- a concrete history through every kind of operation (ms axis, t0 = 1 ms, Δ = 2 ms, n = 4) -/
